@@ -242,3 +242,34 @@ def strip_names(t):
             return (t[0], t[1])
         return tuple(strip_names(x) if isinstance(x, tuple) else x for x in t)
     return t
+
+
+def _guards_of(self, fn, block):
+    """Conditions that hold on EVERY path from entry to `block`:
+    list of (cond_term, value) where value is True/False for boolean switches
+    or the integer switch value (or ('not', [values]) for the otherwise edge)."""
+    b = self.body(fn)
+    T = self.terms(fn)
+    out = []
+    for s in sorted(b.normal_blocks()):
+        t = b.term(s)
+        if t["k"] != "switch":
+            continue
+        if not b.block_dominates(s, block) or s == block:
+            continue
+        cond = T.operand(t["discr"], (s, b.n_stmts(s)))
+        tys = t["discr"].get("ty") if t["discr"]["k"] != "const" else None
+        vals = [v for v, _ in t["targets"]]
+        for v, tgt in t["targets"]:
+            if tgt != t["otherwise"] and b.edge_controls((s, tgt), block):
+                out.append((cond, (False if v == 0 else True) if tys == "bool" else v))
+        o = t["otherwise"]
+        if all(o != tgt for _, tgt in t["targets"]) and b.edge_controls((s, o), block):
+            if tys == "bool" and vals == [0]:
+                out.append((cond, True))
+            else:
+                out.append((cond, ("not", tuple(vals))))
+    return out
+
+
+World.guards_of = _guards_of
